@@ -20,7 +20,9 @@ NAMES = ["punctuation_verylow", "punctuation_root", "punctuation_symetrify"]
 def punct(m, n, t, nw, relc, rp, same=False, **kw):
     ip, lp = e1_get(kw, m, n)
     words = [WORDS[kw["w%d" % j] % nw] for j in range(1, n + 1)]
-    pos = ["REL" if (relc and rp == j) else ("RE" if (relc and j == 1) else "P%d" % j) for j in range(1, n + 1)]
+    # one other token carries a POS tag that is a proper substring of the designated label
+    repos = (rp + 1 if rp < n else rp - 1) if relc else 0
+    pos = ["REL" if (relc and rp == j) else ("RE" if (relc and j == repos) else "P%d" % j) for j in range(1, n + 1)]
     nodes, leaves = build_e1(m, n, ip, lp, words=words, pos=pos, labels=(["S"] * m if same else None))
     allx = nodes + leaves
     par0 = [x.parent for x in allx]
